@@ -6,6 +6,7 @@ import (
 	"math/big"
 	"math/rand/v2"
 	"sort"
+	"strconv"
 	"strings"
 
 	sdkmath "cosmossdk.io/math"
@@ -601,7 +602,24 @@ func (r *poolRun) syncModel(cn, op string, allow map[string]bool) {
 		if _, still := st.calls[n]; still || cr.Loc != "open" {
 			continue
 		}
+		// the execution of one call's result settles that call and no other: a bridge call is tracked on the
+		// external chain by its own nonce and stays executable there until its own timeout
+		only, restricted := uint64(0), false
+		for k := range allow {
+			if strings.HasPrefix(k, "only-call#") {
+				only, _ = strconv.ParseUint(strings.TrimPrefix(k, "only-call#"), 10, 64)
+				restricted = true
+			}
+		}
 		switch {
+		case restricted && n != only:
+			if r.c06 {
+				r.res.Violate("C06/bridge-call-released-by-result-of-another-call", "%s: bridge call %d of %s (timeout %d, last observed external height %d, no result observed for it) was released when the result of call %d was executed", op, n, cn, cr.Timeout, observed, only)
+			}
+			if r.c05 {
+				r.res.Violate("C05/bridge-call-settled-by-result-of-another-call", "%s: bridge call %d of %s left the store when the result of call %d was executed", op, n, cn, only)
+			}
+			cr.Loc = "refunded"
 		case allow["call>executed"]:
 			cr.Loc = "executed"
 		case allow["call>refunded"]:
